@@ -304,6 +304,7 @@ pub fn run_h_with(case: &HCase, svc: &varlink::VarlinkService, rec: &Rec) -> HOb
             continue;
         }
         cnt.handle_calls += 1;
+        let plan_pos_before = rplan.pos;
         let res = {
             let mut rd = FaultReader {
                 data: &buf,
@@ -347,7 +348,12 @@ pub fn run_h_with(case: &HCase, svc: &varlink::VarlinkService, rec: &Rec) -> HOb
                     // batch) is called again as long as that makes progress
                     // (a short read is "the rest is not there yet": while the reader's fault plan
                     // still has entries the same bytes may get further on the next call)
-                    again = !buf.is_empty() && (progressed || rplan.pos < rplan.plan.len());
+                    // (a handler that neither consumed nor read anything gets nowhere by being called
+                    // again: a real caller waits for more input then)
+                    // A call that used up entries of the fault plan may have seen less than what was
+                    // there (short read, EINTR): it is repeated, also when that was the plan's last
+                    // entry. A call that read under no constraint and got nowhere is not.
+                    again = !buf.is_empty() && (progressed || rplan.pos > plan_pos_before);
                 }
                 iface = i;
             }
